@@ -11,6 +11,7 @@ import (
 	"bytes"
 	"encoding/xml"
 	"fmt"
+	"hash/fnv"
 	"io"
 	"sort"
 	"strings"
@@ -173,11 +174,50 @@ func (r *sliceReader) Token() (xml.Token, error) {
 	return xml.CopyToken(t), nil
 }
 
+// volatileReader is a token reader with the buffer discipline of an
+// *xml.Decoder: the bytes of a character-data token are only valid until the
+// next call to Token (encoding/xml says so for Decoder.Token; payloads that
+// applications pass on usually come from a decoder).  The previous token's
+// bytes are overwritten when the next one is asked for.
+type volatileReader struct {
+	toks []xml.Token
+	i    int
+	last []byte
+}
+
+func (r *volatileReader) Token() (xml.Token, error) {
+	for k := range r.last {
+		r.last[k] = '#'
+	}
+	r.last = nil
+	if r.i >= len(r.toks) {
+		return nil, io.EOF
+	}
+	t := r.toks[r.i]
+	r.i++
+	if cd, ok := t.(xml.CharData); ok {
+		r.last = append([]byte(nil), cd...)
+		return xml.CharData(r.last), nil
+	}
+	return xml.CopyToken(t), nil
+}
+
+// reader returns a token reader over the tree; for about half of the trees
+// (decided by their content, so that a case is reproducible) it has a
+// decoder's buffer discipline.
 func (n *node) reader() xml.TokenReader {
 	if n == nil {
 		return nil
 	}
-	return &sliceReader{toks: n.tokens()}
+	toks := n.tokens()
+	h := fnv.New32a()
+	for _, t := range toks {
+		fmt.Fprintf(h, "%v|", t)
+	}
+	if h.Sum32()%2 == 0 {
+		return &volatileReader{toks: toks}
+	}
+	return &sliceReader{toks: toks}
 }
 
 // parse is the independent well-formedness check and tree builder.
